@@ -108,6 +108,11 @@ Proof. intros c v H E. apply table_value_ok in H. subst v. discriminate. Qed.
 Lemma store_sites_reviewed_checked : store_sites_reviewed = true.
 Proof. reflexivity. Qed.
 
+(* the scan found the readline-like listing mapping its display text through
+   _show_control_characters (the model of Model/C10_Print.v assumes it) *)
+Lemma readline_listing_mapped_checked : readline_listing_mapped = true.
+Proof. reflexivity. Qed.
+
 (* ------------------------------------------------------------ Char.__init__ *)
 
 Lemma char_init_single_clean : forall wc c st, control_free (cch (char_init wc [c] st)) = true.
@@ -239,6 +244,39 @@ Proof.
   pose proof (char_init_cw_nonneg wc [c] st) as H0.
   destruct (Z.eq_dec (cw (char_init wc [c] st)) 0) as [E|E]; [|apply Z.le_neq; split; [exact H0 | congruence]].
   rewrite (zero_width_not_control wc c st Hw E) in Hc. discriminate.
+Qed.
+
+(* ------------------------------------------------------------ caret / hex notation *)
+
+Lemma str_eqb_eq : forall a b, str_eqb a b = true -> a = b.
+Proof.
+  induction a as [|x r IH]; intros [|y l] H; cbn in H; try discriminate; [reflexivity|].
+  apply andb_true_iff in H. destruct H as [H1 H2]. apply Z.eqb_eq in H1. subst. f_equal. apply IH. exact H2.
+Qed.
+
+(* "^" + chr(c ^ 0x40) for C0 and DEL ("^?"), "<%02x>" for C1 *)
+Definition hexdigit (d : Z) : Z := if d <? 10 then 48 + d else 87 + d.
+Definition notation_of (c : Z) : list Z :=
+  if (c <? 32) || (c =? 127) then [94; Z.lxor c 64]
+  else [60; hexdigit (c / 16); hexdigit (c mod 16); 62].
+Definition notation_check : bool :=
+  forallb (fun kv : Z * list Z => negb (is_control (fst kv)) || str_eqb (snd kv) (notation_of (fst kv))) display_mappings.
+
+Lemma notation_checked : notation_check = true.
+Proof. vm_compute. reflexivity. Qed.
+
+(* every control character is shown in exactly ITS caret or hex notation *)
+Lemma table_notation : forall c v, is_control c = true -> dm_lookup c = Some v -> v = notation_of c.
+Proof.
+  intros c v Hc H. apply assoc_In in H. pose proof notation_checked as K. unfold notation_check in K.
+  rewrite forallb_forall in K. specialize (K _ H). cbn [fst snd] in K. rewrite Hc in K. cbn in K.
+  apply str_eqb_eq. exact K.
+Qed.
+
+Lemma cell_notation : forall wc c st, is_control c = true -> cch (char_init wc [c] st) = notation_of c.
+Proof.
+  intros wc c st Hc. destruct (table_covers c Hc) as [v Hv]. unfold char_init. rewrite Hv. cbn [cch].
+  exact (table_notation c v Hc Hv).
 Qed.
 
 (* ------------------------------------------------------------ key data *)
